@@ -14,3 +14,15 @@ mod migrations;
 #[cfg(test)]
 #[cfg(not(target_arch = "wasm32"))]
 mod tests;
+
+/// Verification hooks (off unless built with `--cfg wwcore_verif`): re-exports of already-`pub`
+/// items from private modules so that external monitors can drive the pure math directly.
+#[cfg(wwcore_verif)]
+pub mod verif_hooks {
+    pub mod weight {
+        pub use crate::weight::*;
+    }
+    pub mod helpers {
+        pub use crate::helpers::*;
+    }
+}
